@@ -292,6 +292,40 @@ pub fn fut_history<F: FutFl, const DEPTH: usize>(cap: u64, n: u8) {
     std::mem::forget(w);
 }
 
+// ==========================================================================================
+// C05 on the futures single-consumer receivers: `add_stream_with` creates a second stream.  On a
+// broadcast queue both streams clone; on an mpmc (move-out) queue both would move the same value
+// out of the same slot.  Sequential: into_single, add_stream_with, one send, one in-place receive
+// on each stream, teardown; instrumented payload.
+
+pub fn uni_add_stream<F: FutFl>(cap: u64) {
+    payload::reset();
+    sched::configure(0, 0, 0, 0);
+    let mut w = World::<F>::new(cap);
+    set_world::<F>(&mut w);
+    set_task(1);
+    let r = w.rx[0].take().unwrap();
+    match F::into_single(r) {
+        Ok(u) => w.ux[0] = Some(u),
+        Err(_) => unreachable!(),
+    }
+    w.ux[1] = Some(F::u_add_stream(w.ux[0].as_ref().unwrap()));
+    let sent = F::try_send(w.tx[0].as_ref().unwrap(), F::P::mk(1)).is_ok();
+    assert!(sent, "C09: a send into an empty queue was refused");
+    let a = F::u_try_view(w.ux[0].as_mut().unwrap());
+    let b = F::u_try_view(w.ux[1].as_mut().unwrap());
+    assert!(a == Ok(1), "C01: the first stream did not deliver the value");
+    assert!(b == Ok(1), "C01: the added stream did not deliver the value");
+    kani::cover!(a == Ok(1) && b == Ok(1), "both streams delivered the value");
+    drop(w.tx[0].take());
+    drop(w.ux[0].take());
+    drop(w.ux[1].take());
+    assert!(
+        payload::n_alive() == 0,
+        "C05: a payload or clone was never dropped after the last handle went away"
+    );
+}
+
 // ------------------------------------------------------------------------------------------
 // instances
 
@@ -327,3 +361,6 @@ macro_rules! fh {
 fh!(c15_bc_hist_d4, hk_c15_bc_hist_d4, BcF00, 4, 1, 1);
 fh!(c15_mp_hist_d4, hk_c15_mp_hist_d4, MpF00, 4, 2, 2);
 fh!(c15_bc10_hist_d3, hk_c15_bc10_hist_d3, BcF10, 3, 2, 2);
+
+crate::mq_harness!(c05_bcfut_uni_addstream, hk_c05_bcfut_uni_addstream, Idle, uni_add_stream::<BcastFut<payload::Tok, 0, 0>>(2));
+crate::mq_harness!(c05_mpfut_uni_addstream, hk_c05_mpfut_uni_addstream, Idle, uni_add_stream::<MpmcFut<payload::Tok, 0, 0>>(2));
